@@ -2108,6 +2108,30 @@ impl TypeSpace {
         }
     }
 
+    /// Verification hook: forwards to the private `convert_string` for a
+    /// schema that has nothing but a `format`, and returns the selected type.
+    pub(crate) fn verif_convert_string_format(
+        &mut self,
+        format: &Option<String>,
+    ) -> std::result::Result<String, ()> {
+        let schema = Schema::Bool(true);
+        match self.convert_string(Name::Unknown, &schema, &None, format, None) {
+            Ok((entry, _)) => {
+                let name = match &entry.details {
+                    TypeEntryDetails::String => "String".to_string(),
+                    TypeEntryDetails::Native(native) => native.type_name.clone(),
+                    _ => unreachable!(),
+                };
+                std::mem::forget(entry);
+                Ok(name)
+            }
+            Err(e) => {
+                std::mem::forget(e);
+                Err(())
+            }
+        }
+    }
+
     /// Verification hook: forwards to the private `convert_number`.
     pub(crate) fn verif_convert_number(
         &self,
